@@ -143,6 +143,8 @@ def check_text(case, stats):
         gh.parse(case["prev"], case.get("prev_default", "en"), stop=True)
         gh.parse(case["prev"], case.get("prev_default", "en"), parser=parser, stop=True)
         gh.parse(case["prev"], case.get("prev_default", "en"), parser=parser, stop=False)
+        if len(text) % 3 == 0:
+            parser = gh.Parser(b)  # the used (recording, delegating) builder handed to a brand-new parser
     matcher = None
     if case.get("same_matcher_prevs"):
         # ONE matcher object for documents of several dialects (each names its own in a header), as a long-lived service keeps it
@@ -175,12 +177,15 @@ def unit_noisy(a):
 def check_formatter_reuse(case, stats):
     """one Parser(TokenFormatterBuilder()) - as scripts.generate_tokens uses it - after a parse that was aborted before EOF"""
     p = gh.Parser(gh.TokenFormatterBuilder())
-    stats.case((case["prev"], case["text"], case["stop"]), True, sample=case)
+    stats.case((case["prev"], case["text"], case["stop"], case.get("new_parser")), True, sample=case)
     p.stop_at_first_error = case["stop"]
     try:
         p.parse(case["prev"], gh.TokenMatcher("en"))
     except gh.ParserError:
         pass
+    if case.get("new_parser"):
+        # the used builder object moves on to a brand-new Parser (one formatter kept, parsers made per document)
+        p = gh.Parser(p.ast_builder)
     p.stop_at_first_error = False
     try:
         got = p.parse(case["text"], gh.TokenMatcher("en"))
@@ -224,7 +229,7 @@ def unit_prev_combos(a):
     sweep(stats, across(), check_text)
     prevs = ["Feature: f\n Scenario: s\n  Given x\n   \"\"\"\n   open\n", "Feature: f\n @t\n", "garbage\nFeature: f\n", "Feature: f\n" + "".join(" bad %d\n" % i for i in range(12)),
              "Feature: f\n Scenario: s\n  Given x\n   | a | b |\n   | c |\n @t\n\n Scenario: t\n", "Feature: ok\n"]
-    sweep(stats, [{"sub": "formatter-reuse", "prev": pv, "text": nx, "stop": st_} for pv in prevs for nx in nexts for st_ in (False, True)], check_formatter_reuse)
+    sweep(stats, [{"sub": "formatter-reuse", "prev": pv, "text": nx, "stop": st_, "new_parser": np_} for pv in prevs for nx in nexts for st_ in (False, True) for np_ in (False, True)], check_formatter_reuse)
     return stats
 
 
